@@ -118,9 +118,9 @@ def run(prog, rep):
     rep.extra["C19.entry_points"] = len(seen)
     # template
     sub = _Only(rep, ":per-interval", "C19.template")
-    c09.intervals(prog, sub)
-    getters(prog, rep)
-    globals_rule(prog, rep, eff)
+    rep.part(c09.intervals, prog, sub)
+    rep.part(getters, prog, rep)
+    rep.part(globals_rule, prog, rep, eff)
     control(rep)
     rep.expect_min("C19.noargmut", 90)
     rep.expect_min("C19.nomodelwrite", 60)
